@@ -685,6 +685,30 @@ func genHistory(r *gen.Rand, stream string) *hist {
 	return h
 }
 
+// long stream: one or two series, larger ring, many out-of-order insertions (long linked lists)
+func genLong(r *gen.Rand) *hist {
+	l := r.Range(8, 24)
+	h := newHist(l, gen.Pick(r, []int64{50, 200, 1000}), "long")
+	nser := 1 + r.Intn(2)
+	n := int(r.Range(80, 160))
+	for i := 0; i < n && !h.dead; i++ {
+		switch k := r.Intn(100); {
+		case k < 85:
+			s, e := h.nextAdd(r, nser, h.win)
+			h.add(s, e)
+		case k < 90:
+			h.resize(r.Range(4, 28))
+		case k < 97:
+			lo := r.Range(0, 200)
+			h.sel(lo, lo+r.Range(0, 100), msets[0])
+		default:
+			h.dump()
+		}
+	}
+	h.finish()
+	return h
+}
+
 // boundary stream: timestamps and windows at the int64 extremes
 func genBoundary(r *gen.Rand) *hist {
 	l := r.Range(1, 4)
@@ -774,11 +798,24 @@ func corpus() []*hist {
 	h.add(0, E(4, 9, 90))
 	h.finish()
 	out = append(out, h)
-	// 5. window computed in int64: newest.Ts - window wraps near MinInt64
+	// 5. regression (fixed defect): newest.Ts - window is below MinInt64; the exemplar is inside the window
 	h = newHist(3, 10, "corpus")
-	h.d.Corpus = "window-int64-wrap"
+	h.d.Corpus = "window-near-minint64"
 	h.add(0, E(1, 1, math.MinInt64+5))
 	h.add(0, E(1, 1, math.MinInt64+2))
+	h.add(0, E(1, 1, math.MinInt64+5))
+	h.finish()
+	out = append(out, h)
+	// 6. same with a negative window set later, and a huge window
+	h = newHist(3, math.MaxInt64, "corpus")
+	h.d.Corpus = "window-extremes"
+	h.add(0, E(1, 1, math.MaxInt64))
+	h.add(0, E(1, 1, math.MinInt64))
+	h.add(0, E(1, 1, 0))
+	h.setWin(-7)
+	h.add(0, E(2, 1, math.MaxInt64-1))
+	h.setWin(math.MinInt64)
+	h.add(0, E(2, 1, math.MaxInt64-2))
 	h.finish()
 	out = append(out, h)
 	return out
@@ -789,8 +826,8 @@ func main() {
 	initUniverses()
 	initMatchers()
 	meta := gallina.NewMeta("C21", f.Seed, f.Tier)
-	meta.Rule = "one evaluation = one history (15-70 operations) on a real CircularExemplarStorage; streams: fixed corpus, structured (adds steered to in-order / equal timestamp / out-of-order inside, at the edge of and beyond the window / duplicates / variations of earlier exemplars / label sets around 128 runes, resize to 0, -1, +-1, random, window changes, selects with several matcher sets, iterate, dumps), boundary (timestamps and windows at the int64 extremes); non-trivial = the history stores an exemplar out of order or evicts or resizes a non-empty ring; distinct by the printed operation list"
-	cf := &gallina.CaseFile{Dir: f.Out, Type: "case", PerShard: 60, Preamble: preamble(), Footer: gallina.StdFooter}
+	meta.Rule = "one evaluation = one history (15-70 operations) on a real CircularExemplarStorage; streams: fixed corpus, long (1-2 series, ring 8-24, 80-160 operations), bounded-exhaustive (thorough tier: all 4-operation histories over a 6-symbol alphabet for capacities 2 and 3), structured (adds steered to in-order / equal timestamp / out-of-order inside, at the edge of and beyond the window / duplicates / variations of earlier exemplars / label sets around 128 runes, resize to 0, -1, +-1, random, window changes, selects with several matcher sets, iterate, dumps), boundary (timestamps and windows at the int64 extremes); non-trivial = the history stores an exemplar out of order or evicts or resizes a non-empty ring; distinct by the printed operation list"
+	cf := &gallina.CaseFile{Dir: f.Out, Type: "case", PerShard: 40, Preamble: preamble(), Footer: gallina.StdFooter}
 	id := 0
 	seen := map[string]bool{}
 	emit := func(h *hist) {
@@ -808,8 +845,9 @@ func main() {
 		}
 		h.d.Shape = "history"
 		if h.wrap {
-			h.d.Shape = "ooo-window-int64-wrap"
-			meta.Hit("window-int64-wrap")
+			// newest.Ts - window is not an int64 and the age rule decided (regression class of the
+			// fixed defect "window check overflows near MinInt64"); an ordinary case
+			meta.Hit("window-beyond-int64")
 		}
 		if h.goViol != "" {
 			h.d.Shape = "corrupt-list"
@@ -823,13 +861,36 @@ func main() {
 	for _, h := range corpus() {
 		emit(h)
 	}
-	n := f.Count(450, 24000)
+	n := f.Count(300, 3500)
 	for i := 0; i < n; i++ {
 		r := gen.Fork(f.Seed, i)
-		if i%10 == 9 {
+		switch {
+		case i%10 == 9:
 			emit(genBoundary(r))
-		} else {
+		case i%25 == 7:
+			emit(genLong(r))
+		default:
 			emit(genHistory(r, "structured"))
+		}
+	}
+	if f.Tier == "thorough" {
+		// bounded-exhaustive: every history of 4 operations over a 6-symbol alphabet, capacities 2 and 3
+		E := func(ts int64) exemplar.Exemplar {
+			return exemplar.Exemplar{Labels: exLabs[1], Value: 1, Ts: ts, HasTs: true}
+		}
+		syms := []func(h *hist){
+			func(h *hist) { h.add(0, E(1)) }, func(h *hist) { h.add(0, E(2)) }, func(h *hist) { h.add(0, E(3)) },
+			func(h *hist) { h.add(1, E(2)) }, func(h *hist) { h.resize(1) }, func(h *hist) { h.resize(3) },
+		}
+		for _, c := range []int64{2, 3} {
+			for code := 0; code < 6*6*6*6; code++ {
+				h := newHist(c, 10, "exhaustive")
+				for k, x := 0, code; k < 4; k, x = k+1, x/6 {
+					syms[x%6](h)
+				}
+				h.finish()
+				emit(h)
+			}
 		}
 	}
 	cf.Flush()
